@@ -5,9 +5,26 @@ import shutil
 from . import tla
 
 
-def run_mc(name, cfg=None, workers=8, timeout=1800, coverage=False, module=None):
+import re
+
+
+def vacuous_actions(out):
+    """names of specification actions TLC never took (needs -coverage 1)"""
+    bad = []
+    for m in re.finditer(r"^<(\w+) line \d+, col \d+ to line \d+, col \d+ of module (\w+)>: (\d+):(\d+)", out, flags=re.M):
+        if m.group(1) != "Init" and int(m.group(4)) == 0:
+            bad.append(f"{m.group(2)}!{m.group(1)}")
+    return sorted(set(bad))
+
+
+COVERAGE = False     # set by main for the thorough tier: every MC instance is run with -coverage 1 and must take every action
+
+
+def run_mc(name, cfg=None, workers=8, timeout=1800, coverage=None, module=None, allow_unused=()):
     """name: cfg basename (MC_X[.cfg]); module defaults to the cfg name up to the
     first suffix that is not a module (MC_Tree_A.cfg -> MC_Tree.tla)."""
+    if coverage is None:
+        coverage = COVERAGE and "_gen" not in name and "_emit" not in name
     cfgf = (cfg or name) + ".cfg"
     module = module or name
     if not os.path.exists(os.path.join(tla.SPEC, module + ".tla")):
@@ -19,6 +36,10 @@ def run_mc(name, cfg=None, workers=8, timeout=1800, coverage=False, module=None)
     shutil.copy(os.path.join(tla.SPEC, cfgf), os.path.join(d, cfgf))
     res = tla.run_tlc(os.path.join(d, module + ".tla"), os.path.join(d, cfgf), workers=workers,
                       timeout=timeout, coverage=coverage)
+    if coverage and res.ok:
+        vac = [a for a in vacuous_actions(res.out) if a.split("!")[1] not in allow_unused]
+        if vac:
+            raise tla.MachineryError(f"vacuity: actions never taken in {name}: {vac}")
     if not res.ok:
         raise tla.MachineryError(f"design-level model checking of {name} failed: {res.error or res.invariant_violated}\n"
                                  + res.out[-2500:])
